@@ -14,13 +14,14 @@ ObsOK(o) ==
 PropsOK == AtMostOnce' /\ SuccessOnlyAfterBootstrap' /\ FailsIfEndedOrTimedOutFirst' /\ TermOnTimeout' /\ TempDirRemoved'
            /\ UserDirKept' /\ TempDirKeptWhileRunning' /\ (launch # "p" => launch' = launch)
 Step(e) ==
-  CASE e.a = "Stdout"   -> Stdout(e.marker)
-    [] e.a = "Stderr"   -> Stderr
-    [] e.a = "Connect"  -> Connect(e.how)
-    [] e.a = "CtlReply" -> CtlReply(e.ok)
-    [] e.a = "Progress" -> Progress(e.p)
-    [] e.a = "Timeout"  -> Timeout
-    [] e.a = "Exit"     -> Exit
+  CASE e.a = "Stdout"   -> Stdout(e.marker) /\ UNCHANGED shut
+    [] e.a = "Stderr"   -> Stderr /\ UNCHANGED shut
+    [] e.a = "Connect"  -> Connect(e.how) /\ UNCHANGED shut
+    [] e.a = "CtlReply" -> CtlReply(e.ok) /\ UNCHANGED shut
+    [] e.a = "Progress" -> Progress(e.p) /\ UNCHANGED shut
+    [] e.a = "Timeout"  -> Timeout /\ UNCHANGED shut
+    [] e.a = "Exit"     -> Exit /\ UNCHANGED shut
+    [] e.a = "Shutdown" -> Shutdown
     [] OTHER -> FALSE
 TInit == Init /\ tid \in 1..Len(Traces) /\ l = 1 /\ dirKind = Traces[tid].dirkind
 TNext ==
